@@ -181,7 +181,7 @@ def check(case):
 
 
 _PACKAGE_USE = re.compile(r"\[[ \t\f\r\n]*([0-9]+P)")
-PACKAGE_BODIES = ["[1]", "[2] U [3]", "([4] O [5])[901]", "[UB1]", "[6]", "[2] U", "[", "[1]]", "[2] U U [3]", "1", "[7] Q [8]", "[8P", None]
+PACKAGE_BODIES = ["[1]", "[2] U [3]", "([4] O [5])[901]", "[UB1]", "[6]", "[2] U", "[", "[1]]", "[2] U U [3]", "1", "[7] Q [8]", "[8P", "U [2]", "X", "Soll", "Muss [1] U [2]", "O [3] U [4]", None]
 
 
 def classify(case, info):
